@@ -43,6 +43,30 @@ SEP = "\u00a6"
 
 NAMES = ["x", "now", "today", "y", "q", "c", "forloop", "w_", "z"]
 DEFS = "\n".join(f"Definition k_{n} : str := {C.cstr(n)}." for n in NAMES) + """
+(* monomorphic aliases: no implicit arguments to infer in the (large) generated terms *)
+Definition vD (n : N) : value N := Data n.
+Definition vI (z : Z) : value N := Int z.
+Definition vNow : value N := Now.
+Definition vToday : value N := Today.
+Definition kv (k : str) (v : value N) : str * value N := (k, v).
+Definition d0 : dict N := [].
+Definition mkW (eg tg m ra : dict N) : world N := {| w_eg := eg; w_tg := tg; w_matter := m; w_args := ra |}.
+Definition oL (k : str) : op N := Lookup k.
+Definition oA (k : str) (v : value N) : op N := Assign k v.
+Definition oI (k : str) : op N := Incr k.
+Definition oD (k : str) : op N := Decr k.
+Definition oPush (ns : dict N) : op N := Push ns.
+Definition oPop : op N := Pop.
+Definition oE (ns : dict N) (body : list (op N)) : op N := Extend ns body.
+Definition o0 : list (op N) := [].
+Definition bL (k : str) (v : value N) : obs N := OLookup k (Some v).
+Definition bU (k : str) : obs N := OLookup k None.
+Definition bC (z : Z) : obs N := OCount z.
+Definition b0 : list (obs N) := [].
+Definition sv (v : value N) : option (value N) := Some v.
+Definition nv : option (value N) := None.
+Definition sd (d : dict N) : option (dict N) := Some d.
+Definition nd : option (dict N) := None.
 Definition chk (W : world N) (prog : list (op N)) (exp : list (obs N)) : bool :=
   let r := render 30 W prog in
   list_eqb obs_eqb (trace_of r) exp && N.eqb (status_code (status_of r)) 0.
@@ -54,7 +78,7 @@ Definition chk_copy (W : world N) (pre : list (op N)) (ns : dict N) (k : str)
 Definition chk_copy2 (W : world N) (pre : list (op N)) (ns1 : dict N) (k : str)
     (inner outer : option (value N)) : bool :=
   let st := state_of (exec_list 30 pre (st_push (build_base W) [])) in
-  let st1 := st_push (st_push (ctx_copy st ns1) []) [(k_w_, Data 90)] in
+  let st1 := st_push (st_push (ctx_copy st ns1) []) [(k_w_, Data 90%N)] in
   option_eqb value_eqb (st_lookup (st_push (ctx_copy st1 []) []) k) inner
   && option_eqb value_eqb (st_lookup st k) outer.
 Definition raw_state (s : store N) (c : list mref) : state N :=
@@ -69,56 +93,61 @@ def ck(name: str) -> str:
 
 def cval(v: tuple) -> str:
     if v[0] == "D":
-        return f"(Data {v[1]})"
+        return f"(vD {v[1]})"
     if v[0] == "I":
-        return f"(Int {C.cZ(v[1])})"
-    return {"N": "Now", "T": "Today"}[v[0]]
+        return f"(vI {C.cZ(v[1])})"
+    return {"N": "vNow", "T": "vToday"}[v[0]]
 
 
 def coval(v: tuple | None) -> str:
-    return C.copt(cval(v) if v is not None else None, "(value N)")
+    return f"(sv {cval(v)})" if v is not None else "nv"
 
 
 def cdict(items: list[tuple[str, tuple]]) -> str:
-    return C.clist((C.cpair(ck(k), cval(v)) for k, v in items), "(str * value N)")
+    if not items:
+        return "d0"
+    return "[" + "; ".join(f"kv {ck(k)} {cval(v)}" for k, v in items) + "]"
+
+
+def codict(items: list | None) -> str:
+    return f"(sd {cdict(items)})" if items is not None else "nd"
 
 
 def cworld(w: dict[str, list]) -> str:
-    return (f"({{| w_eg := {cdict(w['eg'])}; w_tg := {cdict(w['tg'])}; "
-            f"w_matter := {cdict(w['m'])}; w_args := {cdict(w['ra'])} |}} : world N)")
+    return f"(mkW {cdict(w['eg'])} {cdict(w['tg'])} {cdict(w['m'])} {cdict(w['ra'])})"
 
 
 def cop(op: tuple) -> str:
     t = op[0]
     if t == "lookup":
-        return f"Lookup {ck(op[1])}"
+        return f"oL {ck(op[1])}"
     if t == "assign":
-        return f"Assign {ck(op[1])} {cval(op[2])}"
+        return f"oA {ck(op[1])} {cval(op[2])}"
     if t == "incr":
-        return f"Incr {ck(op[1])}"
+        return f"oI {ck(op[1])}"
     if t == "decr":
-        return f"Decr {ck(op[1])}"
+        return f"oD {ck(op[1])}"
     if t == "push":
-        return f"Push {cdict(op[1])}"
+        return f"oPush {cdict(op[1])}"
     if t == "pop":
-        return "Pop"
+        return "oPop"
     if t == "extend":
-        return f"Extend {cdict(op[1])} {cops(op[2])}"
+        return f"oE {cdict(op[1])} {cops(op[2])}"
     raise ValueError(op)
 
 
 def cops(ops: list[tuple]) -> str:
-    return "(" + C.clist(map(cop, ops)) + " : list (op N))" if ops else "([] : list (op N))"
+    return "[" + "; ".join(map(cop, ops)) + "]" if ops else "o0"
 
 
 def cobs(o: tuple) -> str:
     if o[0] == "L":
-        return f"OLookup {ck(o[1])} {coval(o[2])}"
-    return f"OCount {C.cZ(o[1])}"
+        return f"bL {ck(o[1])} {cval(o[2])}" if o[2] is not None else f"bU {ck(o[1])}"
+    return f"bC {C.cZ(o[1])}"
 
 
 def ctrace(tr: list[tuple]) -> str:
-    return C.clist(map(cobs, tr), "(obs N)")
+    return "[" + "; ".join(map(cobs, tr)) + "]" if tr else "b0"
 
 
 # ------------------------------------------------------- python value <-> token
@@ -563,7 +592,7 @@ def run_ctx(w: dict[str, list], lim: int, ops: list[tuple], none_for_empty: bool
 
 
 def c_observation(res: dict[str, Any]) -> str:
-    sd = C.clist((C.copt(cdict(d) if d is not None else None, "(dict N)") for d in res["scope"]), "(option (dict N))")
+    sd = C.clist((codict(d) for d in res["scope"]), "(option (dict N))")
     return (f"({ctrace(res['trace'])}, {res['status']}, ({C.cnat(res['size'])}, {sd}), "
             f"({cdict(res['locals'])}, {cdict(res['counters'])}), "
             f"{C.clist((cdict(d) for d in res['caller']), '(dict N)')})")
@@ -734,7 +763,7 @@ def part_c(chk: C.Check, thorough: bool) -> list[dict[str, Any]]:
         scope = [[(k, token_of(v)) for k, v in m.items()] if type(m) is dict else None for m in cm._maps]
         st["chains"] += 1
         st["ops"] += len(ops)
-        sd = C.clist((C.copt(cdict(d) if d is not None else None, "(dict N)") for d in scope), "(option (dict N))")
+        sd = C.clist((codict(d) for d in scope), "(option (dict N))")
         cstore = C.clist((cdict(d) for d in store), "(dict N)")
         cchain = C.clist((x[0] for x in refs), "mref")
         case = (f"(let r := exec_list 30 {cops(ops)} (raw_state {cstore} {cchain}) in "
@@ -1077,7 +1106,7 @@ def main(chk: C.Check, build: C.Build) -> None:
     items = items_a + items_b + items_c
     C.correspond(chk, "c10", IMPORTS, DEFS, items,
                  what="ChainMap.v (render, ctx_copy, exec_list, cm_*) vs public API / RenderContext / ReadOnlyChainMap",
-                 shard=max(100, -(-len(items) // C.JOBS)))
+                 shard=250)
     C.proofs_verdict(chk, proofs_ok)
 
     a, b, c, d = (chk.coverage[k] for k in ("partA", "partB", "partC", "partD"))
